@@ -53,9 +53,15 @@ Seqs(o) == { <<m>> : m \in Msgs(o) }
            \cup (IF MaxLen >= 3 THEN { <<m1, m2, m3>> : m1 \in Base(o), m2 \in Msgs(o), m3 \in Base(o) } ELSE {})
 
 TopSum(s, msgs) == SumFees(s.wrk.p, TopOps(msgs, "wrk")) + SumFees(s.bcn.p, TopOps(msgs, "bcn"))
+\* the fee of every SUBSET of the registry operations the transaction executes (an operation that is not charged,
+\* charged twice or replaced by a later one shows up at one of these sums)
+OpFees(s, msgs) == LET ops == SelectSeq(Flatten(msgs), LAMBDA m : IsRegMsg("wrk", m) \/ IsRegMsg("bcn", m))
+                   IN [i \in DOMAIN ops |-> MsgFee(IF IsRegMsg("wrk", ops[i]) THEN s.wrk.p ELSE s.bcn.p, ops[i])]
+SubsetSums(fs) == { SeqSum([i \in DOMAIN fs |-> IF i \in S THEN fs[i] ELSE 0]) : S \in SUBSET DOMAIN fs }
 FeeChoices(s, msgs) ==
   LET e == ExpectedFee(s, msgs, "nund") IN
-  { f \in {0, e - 1, e, e + 1, TopSum(s, msgs), SumFees(s.wrk.p, TopOps(msgs, "wrk")), SumFees(s.bcn.p, TopOps(msgs, "bcn"))} : f >= 0 }
+  { f \in {0, e - 1, e, e + 1, TopSum(s, msgs), SumFees(s.wrk.p, TopOps(msgs, "wrk")), SumFees(s.bcn.p, TopOps(msgs, "bcn"))}
+           \cup SubsetSums(OpFees(s, msgs)) : f >= 0 }
 Inputs(s) ==
   UNION { UNION { { [a |-> "CheckTx", msgs |-> q,
                     fee |-> (IF f > 0 THEN [nund |-> f] ELSE <<>>) @@ (IF x THEN [other |-> 1] ELSE <<>>)]
